@@ -12,9 +12,15 @@ def m(id, prop, file, old, new, rule, note="", nth=1):
     M.append(dict(id=id, prop=prop, file=file, old=old, new=new, rule=rule, note=note, nth=nth))
 
 
+def b(id, props, edits, note=""):
+    """a behaviour-preserving variant: every listed property's check must stay silent (exit 0).
+    edits: list of (file, old, new[, all]) applied in order"""
+    M.append(dict(id=id, prop=props, edits=edits, rule="SILENT", note=note, file=edits[0][0], old=edits[0][1], new=edits[0][2], nth=1))
+
+
 # ---------------------------------------------------------------- C01
 m("c01-forms-stub", "C01", "src/instructions/movsxd.rs", "Movsxd_r64_rm32 => self.instr_movsxd_r64_rm32(i),",
-  "Movsxd_r64_rm32 => opcode_unimplemented!(\"instr_movsxd_r64_rm32 for Movsxd\"),", "C01.forms", "arm replaced by the unimplemented stub")
+  "Movsxd_r64_rm32 => crate::helpers::macros::opcode_unimplemented!(\"instr_movsxd_r64_rm32 for Movsxd\"),", "C01.forms", "arm replaced by the unimplemented stub")
 m("c01-helper-swap", "C01", "src/instructions/add.rs", "calculate_r_rm![u32f; self; i;", "calculate_rm_r![u32f; self; i;", "C01.operands",
   "r_rm/rm_r swapped on Add_r32_rm32: memory source aborts")
 m("c01-width", "C01", "src/instructions/cdqe.rs", "self.reg_read_32(EAX)? as i32 as i64 as u64", "self.reg_read_32(EAX)? as u64", "C01.extend",
@@ -25,9 +31,9 @@ m("c01-div-reg", "C01", "src/instructions/div.rs", "self.reg_read_16(DX)? as u32
   "DIV r/m16 reads BX for DX")
 m("c01-tryfrom", "C01", "src/auto/generated.rs", "Cqo => SupportedMnemonic::Cqo,", "Cqo => SupportedMnemonic::Cwd,", "C01.tables", "TryFrom maps to the wrong variant")
 m("c01-imm", "C01", "src/helpers/operand.rs", "data: i.immediate8to16() as u64,", "data: i.immediate8() as u64,", "C01.imm", "imm8->16 not sign-extended")
-m("c01-ring-swap", "C01", "src/instructions/sub.rs", "d.wrapping_sub(s)", "s.wrapping_sub(d)", "C01.ring", "SUB computes s - d (first form)")
+m("c01-ring-swap", "C01", "src/instructions/sub.rs", "(d as i8).wrapping_sub(s as i8)", "(s as i8).wrapping_sub(d as i8)", "C01.ring", "SUB computes s - d (first form)")
 m("c01-ring-inc", "C01", "src/instructions/inc.rs", "wrapping_add(1)", "wrapping_add(2)", "C01.ring", "INC adds 2 (first form)")
-m("c01-ring-xor", "C01", "src/instructions/xor.rs", "d ^ s", "d | s", "C01.ring", "XOR computes OR (first form)")
+m("c01-ring-xor", "C01", "src/instructions/xor.rs", "d^s", "d|s", "C01.ring", "XOR computes OR (first form)")
 # ---------------------------------------------------------------- C02
 m("c02-clear-mask", "C02", "src/instructions/sub.rs", "(set: FLAG_SF | FLAG_ZF | FLAG_PF; clear: FLAG_CF | FLAG_OF )]",
   "(set: FLAG_SF | FLAG_ZF | FLAG_PF; clear: FLAG_OF )]", "C02.class", "SUB drops CF from a clear mask: stale CF")
@@ -40,7 +46,7 @@ m("c02-shr-mask", "C02", "src/instructions/shr.rs", "let s = s & 0x1f;", "let s 
 m("c06-shr-mask8", "C06", "src/instructions/shr.rs", "let s = s & 0x1f;", "let s = s & 0x3f;", "C06.spurious", "SHR r/m8 imm8 masks with 0x3f: count 32 overflows the flag mask shift")
 m("c02-zf", "C02", "src/state/flags.rs", "if result == 0 {", "if result == 1 {", "C02.setter.zsp", "ZF from result == 1")
 m("c02-pf", "C02", "src/state/flags.rs", "for i in 0..8 {", "for i in 0..7 {", "C02.setter.zsp", "parity over 7 bits")
-m("c02-cmp-result", "C02", "src/instructions/cmp.rs", "d.wrapping_sub(s)", "s.wrapping_sub(d)", "C02.result", "CMP flags from s - d (first form)")
+m("c02-cmp-result", "C02", "src/instructions/cmp.rs", "(d as i8).wrapping_sub(s as i8)", "(s as i8).wrapping_sub(d as i8)", "C02.result", "CMP flags from s - d (first form)")
 # ---------------------------------------------------------------- C03
 m("c03-cond", "C03", "src/instructions/ja.rs", "&& self.state.rflags & FLAG_ZF == 0", "|| self.state.rflags & FLAG_ZF == 0", "C03.cond", "JA: && -> ||")
 m("c03-target", "C03", "src/instructions/jmp.rs", "let offset = i.near_branch64() as i64 as u64;\n                self.trace_jump(i, offset)?;",
@@ -120,3 +126,52 @@ m("c20-mapiter", "C20", "src/helpers/trace.rs", "let target_symbol = match self.
   "C20.sources", "hash-map iteration inside trace()")
 m("c20-rand", "C20", "src/instructions/cpuid.rs", "fn instr_cpuid(&mut self, i: Instruction) -> Result<(), AxError> {", "fn instr_cpuid(&mut self, i: Instruction) -> Result<(), AxError> {\n        let _r: u8 = rand::random();",
   "C20.sources", "rand in a handler")
+
+# ---------------------------------------------------------------- added with the semantic reworks
+m("c19-slice-min", "C19", "src/state/memory.rs", "let copy_len = std::cmp::min(old_data.len(), new_data.len());", "let copy_len = old_data.len();", "C19.slices", "resize copies the old length unconditionally (panics when shrinking)")
+m("c19-slice-loop", "C19", "src/helpers/trace.rs", "while i < self.state.trace.len() {", "while i <= self.state.trace.len() {", "C19.slices", "trace loop runs one past the end")
+m("c15-round-mask", "C15", "src/elf/elf.rs", "size.checked_add(0xfff).map(|s| s & !0xfff)", "size.checked_add(0xfff).map(|s| s & !0x7ff)", "C15.round", "rounding mask leaves bit 11")
+m("c14-write-key", "C14", "src/helpers/syscalls.rs", ".entry(write_end)", ".entry(fd)", "C14.keys", "write stores under the write end instead of the read end")
+m("c14-read-count", "C14", "src/helpers/syscalls.rs", "ax.reg_write_64(RAX, max_bytes)?;", "ax.reg_write_64(RAX, count)?;", "C14.split", "read returns the requested instead of the delivered count")
+
+# ---------------------------------------------------------------- behaviour-preserving variants (must stay silent)
+b("b-c13-return-from-state", "C13", [("src/helpers/syscalls.rs", "ax.reg_write_64(RAX, ax.state.syscalls.brk_start + new_length)?;",
+   "ax.reg_write_64(RAX, ax.state.syscalls.brk_start + ax.state.syscalls.brk_length)?;")], "brk(p) returns base + the just-stored length")
+b("b-c13-merged-refusal", "C13,C19", [("src/helpers/syscalls.rs", "if brk == 0 {", "if brk < ax.state.syscalls.brk_start {")],
+  "query and below-base refusal merged into one early return (brk(0) is below any base)")
+b("b-c14-drain-in-place", "C14,C19", [("src/helpers/syscalls.rs",
+   "ax.state\n                .syscalls\n                .pipe_contents\n                .insert(fd, available_content[max_bytes as usize..].to_vec());",
+   "if let Some(content) = ax.state.syscalls.pipe_contents.get_mut(&fd) {\n                content.drain(..max_bytes as usize);\n            }")],
+  "pipe read shrinks the buffer in place")
+b("b-c14-or-default", "C14", [("src/helpers/syscalls.rs",
+   ".entry(write_end)\n                .and_modify(|content| content.extend_from_slice(&bytes))\n                .or_insert(bytes);",
+   ".entry(write_end)\n                .or_default()\n                .extend_from_slice(&bytes);")], "pipe write via or_default().extend_from_slice")
+b("b-c06-div64-early-test", "C06,C19,C01", [("src/instructions/div.rs",
+   "if quotient > u64::MAX as u128 {\n            return Err(AxError::from(format!(\n                \"Divide error in Div_rm64: quotient {quotient:#x} does not fit into 64 bits\"\n            )));\n        }",
+   "if (dst_val >> 64) >= src_val {\n            return Err(AxError::from(format!(\n                \"Divide error in Div_rm64: quotient {quotient:#x} does not fit into 64 bits\"\n            )));\n        }")],
+  "DIV r/m64 range test on the high half of the dividend")
+b("b-c07-high-byte-range", "C07,C01,C19", [("src/state/registers.rs", "let is_high = HIGHER_BYTE_REGISTERS.contains(&reg);",
+   "let is_high = (Register::AH..=Register::BH).contains(&r);", True)], "high-byte test as a range over iced's encoding order (AH, CH, DH, BH)")
+b("b-c15-page-const", "C15,C16", [("src/elf/elf.rs", "size.checked_add(0xfff).map(|s| s & !0xfff)",
+   "{\n        const PAGE: u64 = 0x1000;\n        size.checked_add(PAGE - 1).map(|s| s & !(PAGE - 1))\n    }")], "page size as a named constant")
+b("b-c15-div-rounding", "C15,C16", [("src/elf/elf.rs", "size.checked_add(0xfff).map(|s| s & !0xfff)",
+   "size.checked_add(0xfff).map(|s| s / 0x1000 * 0x1000)")], "rounding by division")
+b("b-c16-single-allocation", "C15,C16", [("src/elf/elf.rs",
+   "axecutor.mem_init_zero_named(\n                            segment.p_vaddr,\n                            memsz,\n                            format!(\"elf_load_zeroed_header_{:#x}\", segment.p_vaddr),\n                        )?;\n",
+   ""), ("src/elf/elf.rs",
+   "axecutor.mem_write_bytes(\n                            segment.p_vaddr,\n                            &content[..segment.p_filesz as usize],\n                        )?;",
+   "let mut data = vec![0u8; memsz as usize];\n                        if content.len() > data.len() {\n                            return Err(AxError::from(\"ELF: segment file size exceeds its memory size\"));\n                        }\n                        data[..content.len()].copy_from_slice(content);\n                        axecutor.mem_init_area_named(\n                            segment.p_vaddr,\n                            data,\n                            Some(format!(\"elf_load_zeroed_header_{:#x}\", segment.p_vaddr)),\n                        )?;")],
+  "loader builds the zero-padded image in one vector, with the length guard")
+b("b-c10-overlap-spelling", "C10,C13,C08", [("src/state/memory.rs", "if start.max(area.start) < end.min(area.start + area.length) {",
+   "if !(end <= area.start || area.start + area.length <= start) && start < end && area.start < area.start + area.length {")],
+  "overlap test spelled as the negated disjointness of two non-empty ranges")
+b("b-c05-operand-order", "C05,C01", [("src/helpers/operand.rs",
+   "addr = addr.wrapping_add(displacement);", "addr = displacement.wrapping_add(addr);")], "address sum commuted")
+b("b-c01-shift-elide-16", "C01,C02,C06", [("src/helpers/macros.rs",
+   "self.set_flags_u16(flags_to_set | flags, flags_to_clear, result);\n                if (flags_to_set & NO_WRITEBACK) == 0 {\n                    self.reg_write_16(r, result as u64)?;",
+   "self.set_flags_u16(flags_to_set | flags, flags_to_clear, result);\n                if (flags_to_set & NO_WRITEBACK) == 0 && flags != crate::state::flags::FLAGS_UNAFFECTED {\n                    self.reg_write_16(r, result as u64)?;", True)],
+  "16-bit helpers skip the register write-back when the operation left the flags (and the value) untouched")
+b("b-c04-push-precompute", "C04,C19", [("src/instructions/push.rs", "let value = self.reg_read_64(reg)?;", "let value = self.reg_read_64(reg)?; let _unused = value;")],
+  "no-op edit in PUSH r64")
+b("b-msg-only", "C16,C19,C20", [("src/elf/elf.rs", "ELF: Content is larger than specified in segment header", "ELF: segment content larger than its header says")],
+  "error text reworded")
